@@ -267,6 +267,8 @@ pub struct Automaton {
     /// an instruction whose placement the statement leaves open was seen
     /// (OpLine/OpNoLine inside a function but outside a block, or an `Other` opcode outside a block)
     pub unconstrained: bool,
+    /// the instructions whose placement is unconstrained (not filed by the model)
+    pub unconstrained_insts: Vec<MInst>,
 }
 
 impl Automaton {
@@ -348,10 +350,13 @@ impl Automaton {
                 Some(b) => b.insts.push(i.clone()),
                 None => {
                     if self.func.is_some() {
-                        // documented limitation of the data representation: unconstrained
+                        // documented limitation of the data representation: placement unconstrained,
+                        // the model does not file it anywhere
                         self.unconstrained = true;
+                        self.unconstrained_insts.push(i.clone());
+                    } else {
+                        self.module.sections[SEC_TYPES as usize].push(i.clone());
                     }
-                    self.module.sections[SEC_TYPES as usize].push(i.clone());
                 }
             },
             Lc::Block => match &mut self.block {
